@@ -186,7 +186,7 @@ CHECKS = {
         "level": "model_checking",
         "engine": "E1",
         "technique": "exhaustive enumeration of fault sequences on the assembled operator under the controlled scheduler with virtual time (thorough: plus delay-bounded schedule exploration)",
-        "level_text": "Every fault sequence from {onStartup, Synchronization, Event, Schedule, combined Schedule+Event task} x k in 0..3 consecutive failures x {non-zero exit, malformed metrics, malformed patch, patch that cannot be applied} x the allowFailure values of the bindings involved is run through the real operator (queues, combine, taskHandleHookRun, handleRunHook, metric storage, object patcher on the fake cluster) with a blocker task ahead and a later task behind it, on the virtual clock. Oracle: k+1 attempts with the same contexts (never fewer), each at least the initial delay (5 s virtual) after the failure, nothing else of the queue in between, the later task afterwards; with failure allowed by every binding involved a single attempt; a context of a binding that does not allow failure is never discarded after a failed run; no Event before the successful Synchronization. Failure kinds include malformed admission / conversion response files left behind by an ordinary run. One family has two schedule bindings with the same name and different allowFailure.",
+        "level_text": "Every fault sequence from {onStartup, Synchronization, Event, Schedule, combined Schedule+Event task, combined Schedule+Event+Schedule task (the binding that does not allow failure in the middle of three merged tasks)} x k in 0..3 consecutive failures x {non-zero exit, malformed metrics, malformed patch, patch that cannot be applied} x the allowFailure values of the bindings involved is run through the real operator (queues, combine, taskHandleHookRun, handleRunHook, metric storage, object patcher on the fake cluster) with a blocker task ahead and a later task behind it, on the virtual clock. Oracle: k+1 attempts with the same contexts (never fewer), each at least the initial delay (5 s virtual) after the failure, nothing else of the queue in between, the later task afterwards; with failure allowed by every binding involved a single attempt; a context of a binding that does not allow failure is never discarded after a failed run; no Event before the successful Synchronization. Failure kinds include malformed admission / conversion response files left behind by an ordinary run. One family has two schedule bindings with the same name and different allowFailure.",
         "level_note": "Trusted: scheduler and virtual clock, process stand-in (writes the real output files), hub, fake cluster. Quick explores the default schedule of each fault sequence; thorough adds all schedules with one deviation.",
         "rule": "product enumeration of fault sequences; non-trivial = k >= 1; distinct = distinct execution list",
         "parts": [
